@@ -43,7 +43,7 @@ func (s StubJWKS) Resolve(ctx context.Context, location string, ignoreCache bool
 
 // Auth describes how client credentials are attached to a request.
 type Auth struct {
-	Mode          string // "basic" | "post" | "both" | "none" | "raw" | "id_only" (client_id in body, no secret)
+	Mode          string // "basic" | "post" | "both" | "none" | "raw" | "id_only" (client_id in body, no secret) | "query" (credentials in the URL)
 	ID            string
 	Secret        string
 	RawHeader     string // Mode raw: the literal Authorization header
@@ -74,6 +74,13 @@ func (a Auth) apply(r *http.Request, form url.Values) {
 		form.Set("client_secret", a.Secret)
 	case "id_only":
 		form.Set("client_id", a.ID)
+	case "query":
+		// credentials in the request URI, nothing in the body (RFC 6749 2.3.1: MUST NOT be included in the request URI)
+		q := r.URL.Query()
+		q.Set("client_id", a.ID)
+		q.Set("client_secret", a.Secret)
+		r.URL.RawQuery = q.Encode()
+		r.RequestURI = r.URL.RequestURI()
 	case "raw":
 		r.Header.Set("Authorization", a.RawHeader)
 	case "none", "":
